@@ -133,6 +133,7 @@ static const Bound BOUNDS[FN_COUNT] = {
     /*cbrt*/ { 1.0, 1.0 }, /*erf*/ { 3.5, 96 }, /*erfc*/ { 128, 48 }, /*tgamma*/ { 14, 16 }, /*lgamma*/ { 8, 8 },
     /*sincos*/ { 3.0, 3.0 }, /*atan2*/ { 3.5, 3.5 }, /*hypot*/ { 2.0, 2.0 }, /*pow*/ { 4.0, 4.0 },
     { 0, 0 }, { 0, 0 }, { 0, 0 }, { 0, 0 }, { 0, 0 }
+    // FN_FMOD ... : C14-only functions, no accuracy bound (value-initialised)
 };
 // the bound that applies to one evaluation (some are piecewise in the argument)
 template <class T>
